@@ -628,6 +628,11 @@ func c16Headless(in *C16Input, ms *dbg.DbgMsgStruct, txs []*dbg.DbgMsgTx, ids ma
 		done := make(chan struct{})
 		go func() {
 			defer close(done)
+			// a call still running when the step is given up (livelock, known
+			// finding) ends in a panic of the library once the debugger is
+			// disposed under it (send on closed channel): not this property's
+			// business, and it must not take the harness down
+			defer func() { _ = recover() }()
 			f()
 		}()
 		select {
